@@ -35,6 +35,12 @@ def generate(rng, seed, index, tier):
         kw = gen.gen_params(rng, spec, x0, y0, p_knob=0.4, reporting=False, globalized=False)
         kw["penalty_update"] = str(rng.choice(["ObjectiveFilter", "LagrangianFilter"]))
         kw["iteration_limit"] = int(rng.choice([20, 60, 150]))
+        if rng.random() < 0.15 and spec["m"]:
+            # many small steps: the live filter grows a long front
+            kw["step_control_type"] = "Fixed"
+            kw["lamb_init"] = float(rng.choice([10.0, 100.0]))
+            kw["rho"] = float(rng.choice([1.0, 2.5]))
+            kw["iteration_limit"] = 300
         kw = gen.quiet_params(kw)
         return gen.base_world(seed, ID, index, spec, x0, y0, kw, case={"mode": "live", "resolve": bool(rng.random() < 0.3)})
     n = int(rng.integers(1, 41))
@@ -183,11 +189,12 @@ def case(world):
     stats["live.updates"] = ups
     stats["live.vetoes"] = vet
     stats["live." + ex.outcome.split("@")[0]] = 1
+    mx = max([len(t.filter_after[0]) for t in ex.trials if t.filter_after is not None] + [0])
     keys = []
     if vet and ups > vet:
         stats["nontrivial"] = 1
         keys.append(ex.traj_digest()[:16])
-    return {"violations": viol, "stats": stats, "keys": keys, "executions": 1, "sample": small_sample(world, {"outcome": ex.outcome, "filter_updates": ups, "vetoes": vet})}
+    return {"violations": viol, "stats": stats, "keys": keys, "executions": 1, "sample": small_sample(world, {"outcome": ex.outcome, "filter_updates": ups, "vetoes": vet}), "max": {"live_filter_entries": mx}}
 
 
 def base_digest(world):
